@@ -127,4 +127,34 @@ def amplifiers():
         ("reverse_big", "local s=string.rep('A',math.min(%d,5000000)) emit(#s:reverse())"),
         ("sort_big", "local n=math.min(%d,200000) local t={} for i=1,n do t[i]=(i*7919)%%1000 end table.sort(t) emit(t[1])"),
         ("dump_big", "local n=math.min(%d,50000) local f=load('return '..string.rep('1+',n)..'1') emit(#string.dump(f))"),
+        # pattern matching: every way of backtracking must be paid for (quadratic work on a linear subject)
+        ("find_lazy", "local s=string.rep('a',math.min(%d,300000)) emit(s:find('.-b'))"),
+        ("match_lazy_capture", "local s=string.rep('a',math.min(%d,300000)) emit(s:match('(.-)b'))"),
+        ("gsub_lazy", "local s=string.rep('a',math.min(%d,300000)) emit((s:gsub('a-b','')))"),
+        ("gmatch_lazy", "local s=string.rep('a',math.min(%d,300000)) local n=0 for _ in s:gmatch('.-b') do n=n+1 end emit(n)"),
+        ("find_greedy_backtrack", "local s=string.rep('a',math.min(%d,300000)) emit(s:find('.*b'))"),
+        ("find_class_star", "local s=string.rep('a',math.min(%d,300000)) emit(s:find('[a-c]*d'))"),
+        ("find_plus_fail", "local s=string.rep('a',math.min(%d,300000)) emit(s:find('a+b'))"),
+        ("find_opt_chain", "local n=math.min(%d,28) local s=string.rep('a',n) emit(s:find(string.rep('a?',n)..string.rep('a',n)..'b'))"),
+        ("find_balanced", "local s=string.rep('(',math.min(%d,300000)) emit(s:find('%%b()'))"),
+        ("find_frontier", "local s=string.rep('a',math.min(%d,300000)) emit(s:find('%%f[b]'))"),
+        ("find_backref", "local s=string.rep('a',math.min(%d,3000)) emit(s:find('(a*)%%1b'))"),
+        ("gsub_anchored_fail", "local s=string.rep('ab',math.min(%d,200000)) emit((s:gsub('^(a.-)c','')))"),
+        ("find_init_loop", "local s=string.rep('a',math.min(%d,300000)) emit(s:find('a-b',1))"),
+        # library loops driven by a size the program chooses
+        ("tmove_range", "local n=%d local ok,e=pcall(table.move,{},1,n,2,{}) emit(ok)"),
+        ("tinsert_len_mm", "local n=%d local t=setmetatable({},{__len=function() return n end}) emit(pcall(table.insert,t,1,0))"),
+        ("tremove_len_mm", "local n=%d local t=setmetatable({},{__len=function() return n end}) emit(pcall(table.remove,t,1))"),
+        ("tconcat_range", "local n=%d emit(pcall(table.concat,setmetatable({},{__index=function() return '' end}),'',1,n))"),
+        ("sort_bad_order", "local n=math.min(%d,100000) local t={} for i=1,n do t[i]=i%%7 end emit(pcall(table.sort,t,function(a,b) return true end))"),
+        ("utf8_len_big", "local s=string.rep('\\xe2\\x82\\xac',math.min(%d,2000000)) emit(utf8.len(s))"),
+        ("utf8_codepoint_all", "local s=string.rep('a',math.min(%d,200)) emit(select('#',utf8.codepoint(s,1,-1)))"),
+        ("utf8_offset_far", "local s=string.rep('a',math.min(%d,3000000)) emit(utf8.offset(s,#s))"),
+        ("tonumber_long", "local s=string.rep('1',math.min(%d,3000000)) emit(tonumber(s)~=nil)"),
+        ("tostring_mm_chain", "local n=math.min(%d,150) local t={} for i=1,n do t=setmetatable({},{__index=t}) end emit(t.x)"),
+        ("rep_gsub_expand", "local s=string.rep('a',math.min(%d,100000)) emit(#(s:gsub('a','%%0%%0%%0%%0')))"),
+        ("format_many", "local n=math.min(%d,200) local t={} for i=1,n do t[i]=i end emit(#string.format(string.rep('%%d',n),table.unpack(t)))"),
+        ("select_far", "emit(select(math.min(%d,250),table.unpack((function() local t={} for i=1,250 do t[i]=i end return t end)())))"),
+        ("next_big_table", "local n=math.min(%d,300000) local t={} for i=1,n do t[i]=i end for i=1,n-1 do t[i]=nil end emit(next(t))"),
+        ("len_border", "local n=math.min(%d,300000) local t={} for i=1,n do t[i]=i end for i=n,2,-1 do t[i]=nil end emit(#t)"),
     ]
